@@ -78,6 +78,7 @@ def run_real(scn):
         env["CV_CTL"] = ctl
         src = os.environ.get("VERIF_SUBJECT_SRC") or C.REPO_SRC
         env["PYTHONPATH"] = src
+        env["PYTHONUNBUFFERED"] = "1"          # lines reach the reader when printed, not when a buffer fills
         proc = subprocess.Popen([C.PY, "-m", "conductor"] + list(scn["argv"]), cwd=root, env=env, stdout=subprocess.PIPE,
                                 stderr=subprocess.PIPE, start_new_session=True)
         out_lines, err_lines = [], []
